@@ -134,7 +134,7 @@ void Log::log(const String& cat, Log::Level level, const String& message)
 	int slash = max(cat.lastIndexOf('\\'), cat.lastIndexOf('/'));
 	int i0 = (slash<0) ? 0 : slash + 1;
 	int dot = cat.lastIndexOf('.');
-	int i1 = (dot<0) ? cat.length() : dot;
+	int i1 = (dot<i0) ? cat.length() : dot; // a '.' in the directory part is not an extension
 	String catg = cat.substring(i0, i1);
 	bool useconsole = _useconsole;
 
@@ -210,7 +210,7 @@ void Log::log(const String& cat, Log::Level level, const String& message)
 	int slash = max(cat.lastIndexOf('\\'), cat.lastIndexOf('/'));
 	int i0 = (slash < 0) ? 0 : slash + 1;
 	int dot = cat.lastIndexOf('.');
-	int i1 = (dot < 0) ? cat.length() : dot;
+	int i1 = (dot < i0) ? cat.length() : dot;
 	String catg = cat.substring(i0, i1);
 
 	int androidlevel;
